@@ -562,7 +562,7 @@ def classify(case, impl, failure):
         got = d.get("V", "-").split(";")
         text = re.sub(r"(^|\s)%[^\n]*", " ", bytes.fromhex(f[1]).decode("latin-1"))
         diff = [i for i in range(min(len(exp), len(got))) if exp[i] != got[i]]
-        if (len(exp) == len(got) and diff and re.search(r"\]\s+[^\s\[\]]+\s+\.\.\.", text)):
+        if (len(exp) == len(got) and diff and re.search(r"\]\s+\S+\s+\.\.\.", text)):
             p = diff[0]
             ends = _array_ends(exp)
             # the misread range, and the ranges of its type that follow it directly: each takes the
